@@ -1,5 +1,7 @@
 """Oracles for the candle-manager properties (C03, C11, C12, C15a, C18): the real CandleManager
 under an append schedule against independent references computed from the raw stream."""
+import os
+
 from .. import gen
 from . import common as cm
 
@@ -125,9 +127,9 @@ def _check_scn(scn):
     from ..impl import Diverged, guarded
 
     try:
-        return guarded(lambda: run_scn(scn, on_step), seconds=10.0)
+        return guarded(lambda: run_scn(scn, on_step), seconds=(40.0 if os.environ.get("HX_TIER") == "thorough" else 12.0))
     except Diverged:
-        return {"clause": "does-not-terminate", "observed": "still running after 10 s", "expected": "the manager's tasks terminate"}
+        return {"clause": "does-not-terminate", "observed": "still running after its CPU-time budget (12 s quick, 40 s thorough)", "expected": "the manager's tasks terminate"}
     except Exception as e:  # the property says well-formed input never raises here
         return {"clause": "raised", "observed": repr(e), "expected": "no exception"}
 
